@@ -92,6 +92,7 @@ fn main() {
             "C06" => props::c06::replay(&ctx, &v),
             "C07" => props::c07::replay(&ctx, &v),
             "C08" => props::c08::replay(&ctx, &v),
+            "C09" => props::c09::replay(&ctx, &v),
             "C10" => props::c10::replay(&ctx, &v),
             "C11" => props::c11::replay(&ctx, &v),
             "C12" => props::c12::replay(&ctx, &v),
@@ -116,6 +117,7 @@ fn main() {
             "C06" => props::c06::run(&ctx),
             "C07" => props::c07::run(&ctx),
             "C08" => props::c08::run(&ctx),
+            "C09" => props::c09::run(&ctx),
             "C10" => props::c10::run(&ctx),
             "C11" => props::c11::run(&ctx),
             "C12" => props::c12::run(&ctx),
